@@ -27,7 +27,8 @@ from simloop import U
 PID = "C10"
 LEVEL = "exploration"
 TECHNIQUE = "Hypothesis schedule generation on a virtual-clock asyncio simulator vs. a trace-replay reference model"
-RULE = ("schedules of <=12 activity/hook operations (hooks nested/overlapping, with and without preceding activity) "
+RULE = ("schedules of <=12 activity/hook operations (hooks nested/overlapping incl. non-nested pairs whose first-started "
+        "ends first while the second outlasts the timeout, with and without preceding activity) "
         "at instants drawn around multiples of timeout/8, timeouts 1-20 s, per-wake-up timer overshoot from "
         "{0,1us,1ms,0.25s}; plus full connection-handler plans (scripted layer, fake streams, hook durations). "
         "non-trivial = >=2 hooks overlap, or a hook is in progress when the idle deadline passes; distinct by the "
@@ -52,6 +53,9 @@ def model(records, timeout, t_create, slack, ctx, tag):
     overlap = False
     at_deadline = False
     oldest_open = {}  # hook id -> start time of open hooks
+    order = []  # ids of open hooks in start order
+    nonlifo_at = None  # instant of the last non-nested exit (an earlier-started hook ended while a later one is pending)
+    shapes = set()
     last_act = t_create
     for rec in records:
         t, kind = rec[0], rec[1]
@@ -68,6 +72,7 @@ def model(records, timeout, t_create, slack, ctx, tag):
         elif kind == "hs":
             open_ += 1
             oldest_open[rec[2]] = t
+            order.append(rec[2])
             if open_ >= 2:
                 overlap = True
         elif kind == "he":
@@ -75,8 +80,16 @@ def model(records, timeout, t_create, slack, ctx, tag):
                 at_deadline = True
             open_ -= 1
             oldest_open.pop(rec[2], None)
+            if rec[2] in order:
+                if order[-1] != rec[2]:
+                    shapes.add("overlap-not-nested")
+                    nonlifo_at = t
+                order.remove(rec[2])
+            if nonlifo_at is not None and order and t - nonlifo_at >= timeout:
+                shapes.add("overlap-not-nested+survivor-outlasts-timeout")
             if open_ == 0:
                 r = t
+                nonlifo_at = None
         elif kind == "fire":
             fired += 1
             if fired > 1:
@@ -96,6 +109,8 @@ def model(records, timeout, t_create, slack, ctx, tag):
                 ctx.fail("fired-early:" + tag, "fire at %r, last reset %r, timeout %r" % (t, r, timeout))
             elif t > r + timeout + slack:
                 ctx.fail("fired-late:" + tag, "fire at %r, last reset %r, timeout %r slack %r" % (t, r, timeout, slack))
+    for sh in shapes:
+        ctx.cls(sh + ":" + tag)
     return "".join(pat), overlap, at_deadline, fired
 
 
@@ -141,7 +156,6 @@ def run_wd(case):
         await watch
         for t in ops:
             t.cancel()
-        info["blocker"] = wd.blocker
 
     out = simloop.run(main, overshoots=[x * simhandler.OV_U for x in case["overshoots"]], max_iter=50_000,
                       setup=lambda loop: simloop.patched(loop))
@@ -232,7 +246,12 @@ def decode_wd(data):
     for _ in range(t.below(13)):
         m = t.byte()
         te, tj = t.below(25), t.below(4)
-        if m % 3 == 0:
+        if m % 8 == 7:
+            # two overlapping, non-nested hooks (e.g. two streams of one connection): the first-started ends first,
+            # the second stays pending for about a timeout or longer
+            ops.append(["hook", te, tj, 1 + t.below(3), t.below(4), bool(m & 64)])
+            ops.append(["hook", te, tj + 1 + t.below(3), 6 + t.below(11), t.below(4), bool(m & 32)])
+        elif m % 3 == 0:
             ops.append(["act", te, tj, 0, 0, False])
         else:
             ops.append(["hook", te, tj, t.below(17), t.below(4), bool(m & 64)])
